@@ -470,6 +470,8 @@ func isNil(v Value) bool {
 		return v == nil
 	case Slice:
 		return v.V == nil
+	case LSlice:
+		return false
 	case Iface:
 		return v.T == nil
 	case *Closure:
@@ -525,7 +527,7 @@ func (m *Machine) equal(a, b Value) *Term {
 			return c.Bool(x == nil && isNil(b))
 		}
 		return c.Bool(x == y)
-	case Slice:
+	case Slice, LSlice:
 		return c.Bool(isNil(a) && isNil(b))
 	case nil:
 		return c.Bool(isNil(b))
